@@ -19,6 +19,11 @@ def judge_structure(ctx, case, x, n, xs, ys, via):
         i = int(np.argmax(xs[::n] != xf))
         ctx.violation("nth_abscissa_not_original", case, {"k": i, "got": xs[::n][i], "want": xf[i], "via": via})
         return False
+    if not np.array_equal(np.signbit(xs[::n]), np.signbit(xf)):       # "bit for bit": also the sign of a zero abscissa
+        i = int(np.argmax(np.signbit(xs[::n]) != np.signbit(xf)))
+        ctx.violation("nth_abscissa_not_original", case, {"k": i, "got": repr(float(xs[::n][i])), "want": repr(float(xf[i])),
+                                                          "via": via, "what": "sign of zero"})
+        return False
     rel = tol.rel_for(xf)
     d = np.diff(xs)
     if not np.all(d > 0):
